@@ -29,12 +29,12 @@ pub struct SoloCfg {
     pub with_tcs: bool,
 }
 
-struct Uni2 {
+pub struct Uni2 {
     /// digest -> block, all blocks of the universe (crafted + the node's own)
-    blocks: BTreeMap<Vec<u8>, Block>,
+    pub blocks: BTreeMap<Vec<u8>, Block>,
 }
 
-fn craft_children(s: &Search, sc: &SoloCfg, u: &mut Uni2) -> bool {
+pub fn craft_children(s: &Search, sc: &SoloCfg, u: &mut Uni2) -> bool {
     let w = &s.world;
     let t = sc.node;
     let others: Vec<usize> = (0..w.n()).filter(|i| *i != t).collect();
@@ -91,7 +91,7 @@ fn craft_children(s: &Search, sc: &SoloCfg, u: &mut Uni2) -> bool {
     grew
 }
 
-fn menu(s: &Search, sc: &SoloCfg, u: &Uni2, stale_blocks: &[Block]) -> Vec<Ev> {
+pub fn menu(s: &Search, sc: &SoloCfg, u: &Uni2, stale_blocks: &[Block]) -> Vec<Ev> {
     let w = &s.world;
     let t = sc.node;
     let others: Vec<usize> = (0..w.n()).filter(|i| *i != t).collect();
